@@ -1021,6 +1021,13 @@ def raise_types(rep, idx):
                         rep.unk("C19.5", f.site, f"raise {n.exc.id}", "the type of the raised object is not evident from the function")
                         continue
                 exc = ast.unparse(e)
+                # raise helper(...): a nested function that builds the exception
+                for hn in ast.walk(f.node):
+                    if isinstance(hn, ast.FunctionDef) and hn.name == exc and hn is not f.node:
+                        rets = [r.value for r in ast.walk(hn) if isinstance(r, ast.Return) and r.value is not None]
+                        types = {ast.unparse(r.func) for r in rets if isinstance(r, ast.Call)}
+                        if rets and len(types) == 1 and all(isinstance(r, ast.Call) for r in rets):
+                            exc = types.pop()
                 key = (f.site, exc)
                 what = f"raise {exc}"
                 if exc in ("ValueError", "TypeError"):
